@@ -55,10 +55,12 @@ class ChildFailure(Exception):
 
 
 class ForkServer:
-    def __init__(self, handler, memo_cap=40000):
+    def __init__(self, handler, memo_cap=40000, memo_bytes=192 << 20):
         self.handler = handler
         self.memo = {}
         self.memo_cap = memo_cap
+        self.memo_bytes = memo_bytes      # per worker: 16 workers stay below ~3 GB
+        self.memo_size = 0
         self.ref_calls = 0
         self.ref_forks = 0
 
@@ -96,9 +98,11 @@ class ForkServer:
         kind, val = pickle.loads(data)
         if kind != "ok":
             raise HarnessError(f"reference handler raised for {spec!r}:\n{val}")
-        if len(self.memo) >= self.memo_cap:
+        if len(self.memo) >= self.memo_cap or self.memo_size + len(data) > self.memo_bytes:
             self.memo.clear()
+            self.memo_size = 0
         self.memo[key] = val
+        self.memo_size += len(data) + len(key)
         return val
 
     # ---- run children --------------------------------------------------------
@@ -147,3 +151,10 @@ class ForkServer:
                 return msg[1]
         finally:
             parent_sock.close()
+            try:
+                done, _ = os.waitpid(pid, os.WNOHANG)
+                if done == 0:
+                    os.kill(pid, signal.SIGKILL)
+                    os.waitpid(pid, 0)
+            except (ChildProcessError, ProcessLookupError):
+                pass
